@@ -17,6 +17,7 @@
   -- [V] target independence of `draw` (Rust parametricity in the `DrawTarget`): the same call list reaches R1 and R2, carried by correspondence + oracle only
 -/
 import EG.Lemmas.ImageRawImage
+import EG.Lemmas.ImageRawRows
 import EG.Props.C16
 namespace EG.C09
 open EG EG.Raw EG.Img
@@ -77,6 +78,13 @@ theorem pixel_eq_load (im : ImageRaw) (hw : im.WF) (p : Pt) :
       if im.boundingBox.contains p = true then
         load im.bits im.order im.data (p.x.toNat + p.y.toNat * im.dataWidth)
       else none := ImageRaw.pixel_eq hw p
+
+/-- **Rows are padded to whole bytes**: row `y` occupies the bytes
+`data[y * bytes_per_row .. (y + 1) * bytes_per_row]` and pixel `(x, y)` is raw pixel `x` of that
+slice — every depth, both data orders. -/
+theorem pixel_row_aligned (im : ImageRaw) (hw : im.WF) (x y : Nat) (hx : x < im.size.w) (hy : y < im.size.h) :
+    im.pixel ⟨x, y⟩ = load im.bits im.order (im.rowBytes y) x := ImageRaw.pixel_row_aligned hw hx hy
+example : exIm.rowBytes 1 = [0x55, 0xFF] ∧ exIm24.rowBytes 1 = [7, 8, 9, 10, 11, 12] := by decide
 
 example : exIm.pixel ⟨8, 1⟩ = some 1 ∧ exIm.pixel ⟨8, 0⟩ = some 0 ∧ exIm.pixel ⟨9, 0⟩ = none := by decide
 
